@@ -114,14 +114,17 @@ def c12_jobs(tier):
     for n in ((2, 3, 5, 8) if q else (2, 3, 4, 5, 8, 12, 20)):
         for i in range(n - 1):
             jobs.append(J('detect', 'H_C12_thresholdQ_swap', [n, i]))
+    # the same comparison with bit-precise binary64 Q-values (bin edges under IEEE rounding)
+    for n in ((1, 2) if q else (1, 2, 3, 4)):
+        jobs.append(J('detect', 'H_C12_thresholdQ', [n], fp_inputs=True))
     return jobs
 
 
 def c07_jobs(tier):
-    jobs = [J('detect', 'H_C07_workflow', [w], stubs=['workflow', 'tq_summary'], timeout_ms=180000) for w in (2, 1, 0)]
+    jobs = [J('detect', 'H_C07_workflow', [w], stubs=['fast', 'tq_summary'], timeout_ms=180000) for w in (2, 1, 0)]
     if tier != 'quick':
         # the real ThresholdQ and the definitional ten-bin statistic executed inside the workflow (no summary)
-        jobs.append(J('detect', 'H_C07_workflow', [2], stubs=['workflow'], timeout_ms=600000))
+        jobs.append(J('detect', 'H_C07_workflow', [2], stubs=['fast'], timeout_ms=600000))
     return jobs
 
 
@@ -431,7 +434,7 @@ PROPS = {
     },
     'C12': {
         'jobs': c12_jobs,
-        'bounds': {'quick': 'Threshold(s): bit-precise binary64 (QF_FP, RNE) for every s in 1..1024 in ranges of 64, against the exact integer characterisation; 48/50, 19/20, 981/1000 concretely; ThresholdQ: every list of length 1..12, 20, 50 of reals in [0,1]; permutation invariance by adjacent swaps at lengths 2,3,5,8',
+        'bounds': {'quick': 'Threshold(s): bit-precise binary64 (QF_FP, RNE) for every s in 1..1024 in ranges of 64, against the exact integer characterisation; 48/50, 19/20, 981/1000 concretely; ThresholdQ: every list of length 1..12, 20, 50 of reals in [0,1], and every list of 1..2 binary64 values in [0,1] bit-precisely (bin edges under IEEE rounding); permutation invariance by adjacent swaps at lengths 2,3,5,8',
                    'thorough': 'Threshold(s) for s up to 16384 (ranges that time out are reported inconclusive); ThresholdQ lengths 1..20, 50, 100, 200; swaps at lengths up to 20'},
         'outside': 's above the bound (10^6 is out of reach of bit-precise FP solving: unknown at 300 s); Igamc itself (uninterpreted); Q-values outside [0,1] or NaN',
         'assumptions': ['ThresholdQ: float comparisons against the decimal bin edges are exact in reals and in binary64 alike (inputs compared with constants); V as exact real; Igamc uninterpreted'],
